@@ -157,6 +157,7 @@ fn main() {
         "rule": spec.rule,
         "samples": ctx.samples,
         "observed": ctx.counters,
+        "distinct_observed": ctx.distinct_sets.iter().map(|(k, v)| (k.clone(), v.len())).collect::<std::collections::BTreeMap<_, _>>(),
         "exhaustive": spec.exhaustive,
         "budget_cut": ctx.budget_cut,
         "known_findings_hit": known_hits,
